@@ -8,6 +8,8 @@ import (
 	"go/types"
 	"sort"
 	"strings"
+
+	"golang.org/x/tools/go/packages"
 )
 
 // ---------------------------------------------------------------------------
@@ -108,10 +110,19 @@ func ruleR161(c *Ctx) {
 	if len(fd.Recv.List[0].Names) == 1 {
 		recvObj = info.Defs[fd.Recv.List[0].Names[0]]
 	}
+	fwdScope := scopeForwarders(c, root)
 	inspectNoLit(lit.Body, func(x ast.Node) bool {
 		if call, ok := x.(*ast.CallExpr); ok {
 			if id, ok := ast.Unparen(call.Fun).(*ast.Ident); ok && info.ObjectOf(id) == recvObj {
 				lookup = call
+			}
+			// c.lookup(name): a method that only forwards to c(name)
+			if sel, ok := ast.Unparen(call.Fun).(*ast.SelectorExpr); ok {
+				if id, ok := ast.Unparen(sel.X).(*ast.Ident); ok && info.ObjectOf(id) == recvObj {
+					if cal := Callee(info, call); cal != nil && fwdScope[cal] {
+						lookup = call
+					}
+				}
 			}
 		}
 		return true
@@ -733,6 +744,7 @@ func ruleR164(c *Ctx) {
 // lie between the use and the definition: a parameter of a nested closure with
 // the aliased name captures the reference (let a = x; [..].map(x -> x + a)).
 func ruleR165(c *Ctx) {
+	var fwdScope5 map[*types.Func]bool
 	root := c.Pkg("")
 	if root == nil {
 		c.Undecided("package parser2", token.NoPos, "not found")
@@ -754,6 +766,9 @@ func ruleR165(c *Ctx) {
 				continue
 			}
 			recv := info.Defs[fd.Recv.List[0].Names[0]]
+			if fwdScope5 == nil {
+				fwdScope5 = scopeForwarders(c, root)
+			}
 			for _, rf := range c.returnedFuncs(root, fd) {
 				// the name parameter of the lookup function
 				var ft *ast.FuncType
@@ -772,6 +787,12 @@ func ruleR165(c *Ctx) {
 					case *ast.Ident:
 						return rf.bind == nil && info.ObjectOf(t) == recv
 					case *ast.SelectorExpr:
+						// c.lookup: a method that only forwards to c(name)
+						if id, ok := ast.Unparen(t.X).(*ast.Ident); ok && rf.bind == nil && info.ObjectOf(id) == recv {
+							if fn, ok := info.ObjectOf(t.Sel).(*types.Func); ok && fwdScope5[fn.Origin()] {
+								return true
+							}
+						}
 						if rf.bind == nil {
 							return false
 						}
@@ -1119,4 +1140,48 @@ func ruleR167(c *Ctx) {
 	if n < 2 {
 		c.Undecided("parser2#let-nodes", token.NoPos, "only %d constructions of Let nodes found", n)
 	}
+}
+
+// scopeForwarders: methods of Identifiers that do nothing but ask their receiver for their parameter
+// (func (c Identifiers[V]) lookup(name string) (Identifier[V], bool) { if c == nil { return zero, false }; return c(name) }).
+// A call c.lookup(x) counts as the parent lookup c(x).
+func scopeForwarders(c *Ctx, root *packages.Package) map[*types.Func]bool {
+	info := root.TypesInfo
+	res := map[*types.Func]bool{}
+	for _, f := range root.Syntax {
+		for _, d := range f.Decls {
+			fd, ok := d.(*ast.FuncDecl)
+			if !ok || fd.Body == nil || fd.Recv == nil || recvTypeName(fd.Recv.List[0].Type) != "Identifiers" || len(fd.Recv.List[0].Names) != 1 {
+				continue
+			}
+			if fd.Type.Params.NumFields() != 1 || len(fd.Type.Params.List[0].Names) != 1 {
+				continue
+			}
+			recv := info.Defs[fd.Recv.List[0].Names[0]]
+			param := info.Defs[fd.Type.Params.List[0].Names[0]]
+			nCalls, okAll := 0, true
+			ast.Inspect(fd.Body, func(x ast.Node) bool {
+				call, ok := x.(*ast.CallExpr)
+				if !ok {
+					return true
+				}
+				if id, ok := ast.Unparen(call.Fun).(*ast.Ident); ok && info.ObjectOf(id) == recv {
+					if len(call.Args) == 1 {
+						if aid, ok := ast.Unparen(call.Args[0]).(*ast.Ident); ok && info.ObjectOf(aid) == param {
+							nCalls++
+							return true
+						}
+					}
+					okAll = false
+				}
+				return true
+			})
+			if nCalls == 1 && okAll && len(fd.Body.List) <= 2 {
+				if obj, ok := info.Defs[fd.Name].(*types.Func); ok {
+					res[obj.Origin()] = true
+				}
+			}
+		}
+	}
+	return res
 }
